@@ -57,7 +57,7 @@ def gen_graph(rng, nobj):
         elif r < 0.57:
             objs.append({"kind": "chk", "data": rng.randrange(56, 300), "salt": rng.randrange(1 << 30)})
         elif r < 0.65:
-            objs.append({"kind": "mfile", "salt": rng.randrange(1 << 30)})
+            objs.append({"kind": "mfile", "salt": rng.randrange(1 << 30), "mdmf": rng.random() < 0.5})
         elif r < 0.72:
             objs.append({"kind": "unknown", "cap": "lafs://future_%d" % rng.randrange(1 << 20), "imm": rng.random() < 0.5})
         else:
@@ -76,8 +76,10 @@ def gen_graph(rng, nobj):
                 t = rng.choice(mdirs)             # favour cycles / shared subdirectories
             mode = rng.choice(["rw", "rw", "ro"])
             objs[i]["links"].append([rng.choice(NAMES), t, mode])
-            if rng.random() < 0.15:
+            if rng.random() < 0.25:
                 objs[i]["links"].append([rng.choice(NAMES), t, "ro" if mode == "rw" else "rw"])   # both ways
+        if rng.random() < 0.5:
+            objs[i]["links"].append([rng.choice(NAMES), rng.choice(mdirs), "ro"])                # a cycle closing through a read cap
     # literal files are not de-duplicated by the walk: make sure most graphs link one literal twice and an empty one
     if rng.random() < 0.8:
         host = rng.choice(mdirs)
@@ -101,6 +103,13 @@ CORPUS = [
               {"kind": "lit", "data": 5}, {"kind": "unknown", "cap": "lafs://x", "imm": False}],
      "root": [0, "rw"]},
     # literal files only: one linked twice, an empty one, a CHK file for contrast
+    # MDMF directory and MDMF file, each linked by write cap and by read cap; a cycle that closes through a read cap
+    # below a directory entered by read cap (seeded C21-d: write cap and read cap deriving different verify caps)
+    {"objs": [{"kind": "mdir", "mdmf": True, "links": [["d-rw", 1, "rw"], ["d-ro", 1, "ro"], ["f-rw", 2, "rw"], ["f-ro", 2, "ro"]]},
+              {"kind": "mdir", "mdmf": True, "links": [["up-ro", 0, "ro"], ["f", 2, "ro"], ["self", 1, "ro"], ["s", 3, "rw"]]},
+              {"kind": "mfile", "salt": 7, "mdmf": True},
+              {"kind": "mdir", "mdmf": False, "links": [["root-ro", 0, "ro"], ["m", 2, "rw"]]}],
+     "root": [0, "rw"]},
     {"objs": [{"kind": "mdir", "mdmf": False, "links": [["one", 1, "ro"], ["two", 1, "ro"], ["empty", 2, "ro"], ["big", 3, "ro"],
                                                        ["sub", 4, "rw"]]},
               {"kind": "lit", "data": 9, "empty": False}, {"kind": "lit", "data": 0, "empty": True},
@@ -137,7 +146,8 @@ def build(w, case):
             res = rt.wait(c.upload(upload.Data(b"%d:%d:" % (i, o["salt"]) + b"y" * o["data"], convergence=b"c" * 16)))
             caps[i] = {"rw": None, "ro": res.get_uri()}
         elif k == "mfile":
-            n = rt.wait(c.create_mutable_file(MutableData(b"m%d" % o["salt"])))
+            n = rt.wait(c.create_mutable_file(MutableData(b"m%d" % o["salt"]),
+                                              version=MDMF_VERSION if o.get("mdmf") else SDMF_VERSION))
             caps[i] = {"rw": n.get_uri(), "ro": n.get_readonly_uri()}
         elif k == "unknown":
             cap = o["cap"].encode()
@@ -166,7 +176,7 @@ def build(w, case):
     return root
 
 
-def read_graph(w, root):
+def read_graph(w, root, cap2obj=None):
     """explore the real structure: node key = get_uri(); -> (ids, infos) for the driver and the monitor"""
     from allmydata.interfaces import IDirectoryNode
     rt = w["rt"]
@@ -186,7 +196,11 @@ def read_graph(w, root):
             infos[i] = ("u", None, [], n)
             return i
         v = n.get_verify_cap()
-        vs = v.to_string() if v is not None else None
+        # the identity of an object that has a verify cap: which object of the construction this cap belongs to (write cap
+        # and read cap of one object are one object), NOT what get_verify_cap() says
+        vs = None
+        if v is not None:
+            vs = b"obj%d" % cap2obj[n.get_uri()] if cap2obj and n.get_uri() in cap2obj else v.to_string()
         if IDirectoryNode.providedBy(n):
             infos[i] = ("d", vs, None, n)
             ch = rt.wait(n.list())
@@ -277,7 +291,13 @@ def one_case(ctx, w, case, lines, impls, cases):
     from allmydata.interfaces import IDirectoryNode
     rt = w["rt"]
     root = build(w, case)
-    ids, infos = read_graph(w, root)
+    caps_built, _ = w["last"]
+    cap2obj = {}
+    for oi, cp in caps_built.items():
+        for cc in (cp["rw"], cp["ro"]):
+            if cc is not None:
+                cap2obj[cc] = oi
+    ids, infos = read_graph(w, root, cap2obj)
     # consistency assumption: same verifier => same kind, same names, same child verifiers
     byv = {}
     for i, (k, v, kids, n) in infos.items():
@@ -355,7 +375,15 @@ def one_case(ctx, w, case, lines, impls, cases):
             dir_entries.append(i)
     for v, cnt in seen_v.items():
         if cnt != 1:
-            V("an object (verify cap) is reported %d times" % cnt, "visited-twice")
+            label = "object"
+            if v.startswith(b"obj"):
+                o = case["objs"][int(v[3:])]
+                label = ("mdmf" if o.get("mdmf") else "sdmf") if o["kind"] in ("mdir", "mfile") else o["kind"]
+                cp = caps_built[int(v[3:])]
+                used = {cap for (_, cap) in manifest if cap in (cp["rw"], cp["ro"])}
+                label += "-rw-and-ro-link" if len(used) > 1 else "-same-cap"
+            V("an object is reported %d times" % cnt, "visited-twice:" + label,
+              {"paths": [list(pth) for (pth, cap) in manifest if cap2obj.get(cap) is not None and b"obj%d" % cap2obj[cap] == v]})
     for i in reach:
         k, v, kids, n = infos[i]
         if v is not None and v not in seen_v:
